@@ -410,20 +410,37 @@ class C19(Check):
         elif kind == 'string':
             res = self.string_ops(cssutils, data['s'], data['t'], data['b'])
             self.check_lines(ctx, res, data)
+        elif kind == 'flatten':
+            case = {'href': data['href'], 'main': S.j_rules(data['main']),
+                    'vfs': {u: S.j_rules(r) for u, r in data['vfs'].items()}}
+            res = self.flatten_case(ctx, cssutils, case, ctx.sub_rng('corpus'), 'corpus', spell=False)
+            self.check_lines(ctx, res, data)
+
+    def replay_texts(self, ctx, cssutils, w):
+        """a flatten witness is the CSS texts: read them back into the abstract form and run the case again"""
+        def absr(text, href):
+            sh = cssutils.CSSParser(fetcher=lambda u: None).parseString(text, href=href)
+            return S.shallow(S.p_rules(sh.cssRules, deep=False))
+        case = {'href': w['href'], 'main': absr(w['css'], w['href']),
+                'vfs': {u: absr(t, u) for u, t in w['vfs'].items()}}
+        res = self.flatten_case(ctx, cssutils, case, ctx.sub_rng('replay'), 'replay', spell=False)
+        self.check_lines(ctx, res, {'case': 'flatten', 'href': w['href']})
 
     def check_lines(self, ctx, res, data):
         if not res or not ctx.model_ok:
             return
         out = ctx.driver([l for l, _ in res])
         for (line, want), got in zip(res, out):
-            if got.strip() != want.strip() and got != 'UNSUPPORTED':
+            if norm_ws(got) != norm_ws(want) and not got.startswith('UNSUPPORTED') and not got.startswith('PARSE-UNS'):
                 ctx.disagree(line.split(' ', 1)[0], data, want, got)
 
     def replay(self, ctx, data):
         cssutils = impl()
         try:
             w = data.get('witness') or {}
-            if data.get('kind') == 'impl-violates' and 'css' in w and 'vfs' not in w:
+            if data.get('kind') == 'impl-violates' and 'vfs' in w:
+                self.replay_texts(ctx, cssutils, w)
+            elif data.get('kind') == 'impl-violates' and 'css' in w and 'vfs' not in w:
                 rng = ctx.sub_rng('replay')
                 s = self.parse_flat(cssutils, w['css'])
                 sheet = S.p_rules(s.cssRules, deep=False)
@@ -434,15 +451,48 @@ class C19(Check):
             cssutils.ser.prefs.useDefaults()
 
     def known(self, ctx, finding):
+        """replay the witness of a known finding: does the implementation still break the property there,
+        in the way the finding says?"""
         cssutils = impl()
         try:
             w = finding['witness']['data']
             if finding['id'] == 'C19-url-in-function':
                 s = self.parse_flat(cssutils, w['css'])
                 return list(cssutils.getUrls(s)) != w['expected']
-            return True
+            case = {'href': w['href'], 'main': S.j_rules(w['main']),
+                    'vfs': {u: S.j_rules(r) for u, r in w['vfs'].items()}}
+            probe = Probe(ctx)
+            self.flatten_case(probe, cssutils, case, ctx.sub_rng('known'), 'known', spell=False)
+            for v in probe.unexplained:
+                # the witness now fails in another way than listed: that is a violation, not this finding
+                ctx.violate(*v)
+            return finding['id'] in probe.hits
         finally:
             cssutils.ser.prefs.useDefaults()
+
+
+class Probe:
+    """stands in for the run context while a single witness is replayed: records what the oracle reports"""
+    def __init__(self, ctx):
+        self.ctx = ctx
+        self.hits = set()
+        self.unexplained = []
+        self.model_ok = False
+
+    def case(self, *a, **k):
+        pass
+
+    def count(self, *a, **k):
+        pass
+
+    def disagree(self, *a, **k):
+        pass
+
+    def violate(self, clause, witness, detail=None, known=None):
+        if known:
+            self.hits.add(known)
+        else:
+            self.unexplained.append((clause, witness, detail))
 
 
 def collections_counter(it):
